@@ -427,5 +427,23 @@ class KeywordField(Component):
       s.out @= s.w
 
 
+class TmpCollide(Component):
+  """temporaries of two blocks whose flattened names coincide: block a_b / temporary c and block a / temporary b_c"""
+  def construct(s):
+    s.in_ = InPort(Bits8)
+    s.out = OutPort(Bits8)
+    s.o2 = OutPort(Bits8)
+
+    @update
+    def a_b():
+      c = s.in_ + 1
+      s.out @= c
+
+    @update
+    def a():
+      b_c = s.in_[0:4]
+      s.o2 @= zext(b_c, 8)
+
+
 MANGLE = {"MangleIfc": MangleIfc, "MangleList": MangleList, "MangleChild": MangleChild, "MangleStruct": MangleStruct,
-          "MangleChildList": MangleChildList, "MangleWireIfc": MangleWireIfc, "KeywordField": KeywordField}
+          "MangleChildList": MangleChildList, "MangleWireIfc": MangleWireIfc, "KeywordField": KeywordField, "TmpCollide": TmpCollide}
